@@ -48,6 +48,21 @@ def gen_cases(ctx, n_trees, maxdepth):
            ([("x", 2.0), ("y", 2.0)], ("mul", xy, x), ("mul", xy, y)), ([("x", 1.5), ("y", 1.5)], ("add", xy, x), ("add", xy, y)),
            ([("x", 2.0), ("y", 2.0)], x, y), ([("x", 0.5), ("y", 0.5), ("z", 0.5)], ("mul", ("add", xy, z), x), ("mul", ("add", xy, z), z)),
            ([("x", 4.0), ("y", 0.25)], ("mul", xy, x), ("div", ("mul", xy, xy), y))]
+    # the same four names multiplied in two orders that differ only in the INTERIOR (a b c d and a c b d), added / subtracted /
+    # multiplied / divided; and a WIDE sum (18 variables) combined with a narrow term on its leading variables in another order
+    va, vb, vc, vd = ("var", "a"), ("var", "b"), ("var", "c"), ("var", "d")
+    env4 = [("a", 2.0), ("b", 3.0), ("c", 5.0), ("d", 7.0)]
+    p1 = ("mul", ("mul", ("mul", va, vb), vc), vd)
+    p2 = ("mul", ("mul", ("mul", va, vc), vb), vd)
+    p3 = ("mul", ("mul", ("mul", ("mul", va, vb), vc), vd), va)
+    fam += [(env4, p1, p2), (env4, ("mulf", p1, 0.5), ("exp", ("mulf", p2, 0.01))), (env4, p3, p2)]
+    wide_env = [("x%d" % i, 0.5 + 0.25 * i) for i in range(18)]
+    wide = ("var", "x0")
+    for i in range(1, 18):
+        wide = ("add", wide, ("mulf", ("var", "x%d" % i), float(i + 1)))
+    narrow = ("mul", ("mul", ("var", "x1"), ("var", "x1")), ("var", "x0"))
+    narrow3 = ("mul", ("mul", ("var", "x2"), ("var", "x0")), ("var", "x1"))
+    fam += [(wide_env, wide, narrow), (wide_env, wide, narrow3), (wide_env, ("mul", wide, wide), narrow)]
     for envc, a, b in fam:
         for t in ("add", "sub", "mul", "div"):
             for e in ((t, a, b), (t, b, a)):
